@@ -138,3 +138,32 @@ Proof.
   - eapply (filter_check_ok Slots6.opts_check _ _ _ sd Slots6.opts_failing_ids_spec); [|exact Hin|exact Hr|exact Hnot]; incl_solve.
   - eapply (filter_check_ok Slots7.opts_check _ _ _ sd Slots7.opts_failing_ids_spec); [|exact Hin|exact Hr|exact Hnot]; incl_solve.
 Qed.
+
+(* ---------------------------------------------------------------- printing leaves its argument alone *)
+Definition print_pure (sd : slotdoc) : bool :=
+  match Api.loads false false (sd_text sd) with
+  | Ok d => match pprint default_opts d with
+            | Ok (_, d') => value_eqb d d'
+            | Err _ => true
+            end
+  | Err _ => true
+  end.
+
+Lemma pure_shard (docs : list slotdoc) (chk : slotdoc -> bool) sd :
+  forallb chk (filter root_only docs) = true -> In sd docs -> root_only sd = true -> chk sd = true.
+Proof.
+  intros H Hin Hr. rewrite forallb_forall in H. apply H. apply filter_In. split; assumption.
+Qed.
+
+Theorem print_pure_all_slots : forall sd, In sd all_slotdocs -> root_only sd = true -> print_pure sd = true.
+Proof.
+  intros sd Hin Hr. unfold all_slotdocs in Hin. shard_cases Hin.
+  - exact (pure_shard _ Slots0.print_pure sd Slots0.print_pure_all Hin Hr).
+  - exact (pure_shard _ Slots1.print_pure sd Slots1.print_pure_all Hin Hr).
+  - exact (pure_shard _ Slots2.print_pure sd Slots2.print_pure_all Hin Hr).
+  - exact (pure_shard _ Slots3.print_pure sd Slots3.print_pure_all Hin Hr).
+  - exact (pure_shard _ Slots4.print_pure sd Slots4.print_pure_all Hin Hr).
+  - exact (pure_shard _ Slots5.print_pure sd Slots5.print_pure_all Hin Hr).
+  - exact (pure_shard _ Slots6.print_pure sd Slots6.print_pure_all Hin Hr).
+  - exact (pure_shard _ Slots7.print_pure sd Slots7.print_pure_all Hin Hr).
+Qed.
